@@ -315,6 +315,11 @@ var universe = []Obj{
 	// vectors
 	V(I("1"), I("2")), V(D("1"), I("2")), V(Str("a")), V(Str("A")), V(Chr("a")), V(Chr("A")), V(),
 	V(I(two64)), V(R("1/2")), V(R("1/3")), V(D("0.5")), V(L(I("1"), I("2"))),
+	// sequences nested in a vector / array / list where one is a proper prefix of the other (elements of vectors and
+	// arrays are compared through Object.Equal, not by equal itself): a comparison that stops at the shorter length
+	// calls them equal, from one side only
+	V(L(I("1"), I("2"), I("3"))), V(L(I("1"))), V(L()), V(V(I("1"))), V(V(I("1"), I("2"))), V(V()), A(L(I("1"), I("2"))), A(L(I("1"), I("2"), I("3"))), A(V(I("1"))), A(V(I("1"), I("2"))),
+	L(V(L(I("1")))), L(V(L(I("1"), Obj{K: "nil"}))), L(L(I("1"), I("2"), I("3"))), V(Str("ab")), V(Str("abc")), L(Sym("k"), V(L(I("1")))), L(Sym("k"), V(L(I("1"), I("2")))),
 	// lossy rational/float pairs inside vectors, lists and rank-2 arrays (elements are compared through Object.Equal)
 	V(D("0.3333333333333333")), V(F("0.33333334")), L(D("0.3333333333333333")), L(F("0.33333334")),
 	V(R("1/10")), V(D("0.1")), V(F("0.1")), V(I(two53p)), V(D("9007199254740992")), V(I("16777217")), V(F("16777216")),
